@@ -34,7 +34,7 @@ import cli
 
 import rebench.subprocess_with_timeout as swt
 
-IMPORTS = ["Gen.GenFacts", "Model.Denoise"]
+IMPORTS = ["Gen.GenFactsSession", "Model.Denoise"]
 
 SUDO_SRC = r'''#!/bin/sh
 # fake sudo: log the arguments, answer `minimize` with the configured report
